@@ -185,7 +185,7 @@ structure SendSpec where
 def traceStmts (env : Env) : List Stmt → State → List (Nat × Option SendSpec)
   | [], _ => []
   | s :: ss, st =>
-    match evalStmt env s st with
+    match evalStmt Cfg.fixed env s st with
     | .error _ => []
     | .ok st1 =>
       let n := st1.postings.length - st.postings.length
@@ -198,7 +198,7 @@ def traceStmts (env : Env) : List Stmt → State → List (Nat × Option SendSpe
         | .sendAll assetE (.src src) dst =>
           match evalAssetE env assetE with
           | .ok a =>
-            match evalSource env a src st.bal with
+            match evalSource Cfg.fixed env a src st.bal with
             | .ok (f, _) => some ⟨a, none, keptFreeDest dst, total f.parts⟩
             | .error _ => none
           | .error _ => none
@@ -310,8 +310,8 @@ def handleProg (which : String) : Handler := fun inp out => do
   -- model
   let tc := typecheck script
   let modelCompileErr := match tc with | .ok _ => "" | .error m => m
-  let res := sem script input
-  let prep := match tc with | .ok _ => some (prepare script input) | .error _ => none
+  let res := sem Cfg.fixed script input
+  let prep := match tc with | .ok _ => some (prepare Cfg.fixed script input) | .error _ => none
   let (mErr, mPanic, mPostings, mTx, mAcc) :=
     match res with
     | .ok r => ("", "", r.postings, jStrMap (r.txMeta.map fun (k, v) => (k, valueStr v)), jAccMeta r.accMeta)
@@ -382,6 +382,7 @@ def handleProg (which : String) : Handler := fun inp out => do
       (match res with
        | .error (.panic s) => "panic:" ++ s
        | _ => "panic:unpredicted")
+    else if which = "C23" && !p23 then "C23-predicate"
     else if !p22 && sendAllAsset then "C22-sendall-overdraft-asset"
     else if !p22 then "C22-predicate"
     else if !p23 then "C23-predicate"
@@ -414,9 +415,9 @@ def handlePostings : Handler := fun inp out => do
   let vars := txVars ps
   let script := txScript ps force
   let input : Input := { vars := vars, balance := balance, accountMeta := fun _ => none }
-  let res := sem script input
+  let res := sem Cfg.fixed script input
   -- hypothesis of C25.postings_roundtrip, evaluated on this case
-  let envOK := match prepare script input with
+  let envOK := match prepare Cfg.fixed script input with
     | .ok (env, _, _) => txEnvOK env (txAccounts ps []) (txMons ps []) ps
     | .error _ => true
   let (mCompile, mErr, mPanic, mPostings) :=
@@ -486,7 +487,9 @@ def handleMalformed : Handler := fun inp out => do
          nontrivial := real.compileErr = "",
          tags := [kind, outcome],
          note := if prop then "" else "panic / hang / partial result: " ++ real.panic,
-         sig := if real.timeout then "timeout" else if real.panic ≠ "" then "panic:" ++ firstLine
+         sig := if real.timeout then "timeout"
+                else if (real.panic.splitOn "nil *MonetaryInt pointer").length > 1 then "panic:nil-number"
+                else if real.panic ≠ "" then "panic:" ++ firstLine
                 else if !prop then "C27-partial-result" else "" }
 
 end Ledger.Driver
